@@ -78,6 +78,9 @@ func opts(g *core.G) core.TreeOpts {
 	if g.Chance(0.1) {
 		o.MaxTips = 25
 	}
+	if g.Chance(0.08) {
+		o.Singles = 0.15 // inner nodes with a single child (two neighbours)
+	}
 	return o
 }
 
@@ -89,7 +92,11 @@ func zeroAll(n *core.N) {
 }
 
 func genTree(c *core.Ctx) *core.N {
-	n, _ := c.G.Tree(opts(c.G))
+	o := opts(c.G)
+	if c.G.Chance(0.1) {
+		o.FunnyNames = true // blanks, quotes, slashes, numeric-looking and non-ASCII tip names, look-alikes (t1 / t10)
+	}
+	n, _ := c.G.Tree(o)
 	switch r := c.G.Intn(100); {
 	case r < 6:
 		n = tipRooted(c, n)
@@ -156,6 +163,21 @@ func Run(c *core.Ctx) {
 			doRotate(c, genTree(c), c.G.R.Int63())
 		default:
 			doSort(c, genTree(c))
+		}
+	}
+	for i := 0; i < c.Scale(40, 2000); i++ {
+		n := genTree(c)
+		if i%4 == 3 {
+			doRerootFirst(c, n)
+			continue
+		}
+		paths := n.Paths()
+		doOrient(c, n, paths[c.G.Intn(len(paths))])
+	}
+	if c.Gotree != "" {
+		m := c.Scale(112, 1400)
+		for i := 0; i < m; i++ {
+			cliCase(c, i)
 		}
 	}
 }
@@ -363,6 +385,92 @@ func doSort(c *core.Ctx, n *core.N) {
 	c.Emit("C05.sort", n.Dump(), oc, dump)
 }
 
+// doOrient: `t.root = n` alone (SetRoot), then ReorderEdges with the list of reversed branches,
+// then Parent()/ParentEdge() of every node.  Orientation is read directly from Left()/Right().
+func doOrient(c *core.Ctx, n *core.N, path []int) {
+	core.NumberEdges(n)
+	t := build(n)
+	node, _, err := core.NodeAt(t, path)
+	if err != nil {
+		panic(err)
+	}
+	var flags1, flags2, parents, parents0 []string
+	var rev []*tree.Edge
+	p, msg := quiet(func() {
+		t.SetRoot(node)
+		walkFlags(node, nil, &flags1)
+		parents0 = append(parents0, parentClass(node, nil, nil))
+		walkParents(node, nil, &parents0)
+		t.ReorderEdges(node, nil, &rev)
+		walkFlags(node, nil, &flags2)
+		parents = append(parents, parentClass(node, nil, nil))
+		walkParents(node, nil, &parents)
+	})
+	if p {
+		c.Emit("C05.orient", n.Dump(), core.IntList(path), "panic:"+core.Escape(msg), "", "", "", "")
+		return
+	}
+	var ids []int
+	for _, e := range rev {
+		ids = append(ids, e.Id())
+	}
+	c.Emit("C05.orient", n.Dump(), core.IntList(path), strings.Join(flags1, ""), core.IntList(ids),
+		strings.Join(flags2, ""), core.StrList(parents), core.StrList(parents0))
+}
+
+// walkFlags: pre-order over the neighbours; "1" when Left() is the nearer end.
+func walkFlags(cur, prev *tree.Node, out *[]string) {
+	for i, nb := range cur.Neigh() {
+		if nb == prev {
+			continue
+		}
+		b := cur.Edges()[i]
+		if b.Left() == cur && b.Right() == nb {
+			*out = append(*out, "1")
+		} else {
+			*out = append(*out, "0")
+		}
+		walkFlags(nb, cur, out)
+	}
+}
+
+// parentClass: what Parent()/ParentEdge() answer, relative to the walk.
+func parentClass(cur, prev *tree.Node, up *tree.Edge) string {
+	pn, e1 := cur.Parent()
+	pe, e2 := cur.ParentEdge()
+	if (e1 == nil) != (e2 == nil) {
+		return "inconsistent"
+	}
+	if e1 != nil {
+		if strings.Contains(e1.Error(), "more than one") {
+			return "several"
+		}
+		return "none"
+	}
+	if pn == prev && pe == up {
+		return "parent"
+	}
+	return "child"
+}
+
+func walkParents(cur, prev *tree.Node, out *[]string) {
+	for i, nb := range cur.Neigh() {
+		if nb == prev {
+			continue
+		}
+		*out = append(*out, parentClass(nb, cur, cur.Edges()[i]))
+		walkParents(nb, cur, out)
+	}
+}
+
+func doRerootFirst(c *core.Ctx, n *core.N) {
+	t := build(n)
+	var err error
+	p, msg := quiet(func() { err = t.RerootFirst() })
+	oc, dump := after(t, err, p, msg)
+	c.Emit("C05.rerootfirst", n.Dump(), oc, dump)
+}
+
 // ---- replay ------------------------------------------------------------------------
 
 func parseInts(s string) []int {
@@ -401,6 +509,10 @@ func Replay(c *core.Ctx, lines []string) {
 		if len(f) < 2 {
 			continue
 		}
+		if f[0] == "C05.cli" {
+			replayCLI(c, f)
+			continue
+		}
 		n, err := core.ParseDump(f[1])
 		if err != nil {
 			panic(err)
@@ -408,6 +520,10 @@ func Replay(c *core.Ctx, lines []string) {
 		switch {
 		case f[0] == "C05.reroot" && len(f) >= 3:
 			doReroot(c, n, parseInts(f[2]))
+		case f[0] == "C05.orient" && len(f) >= 3:
+			doOrient(c, n, parseInts(f[2]))
+		case f[0] == "C05.rerootfirst":
+			doRerootFirst(c, n)
 		case f[0] == "C05.unroot":
 			doUnroot(c, n)
 		case f[0] == "C05.outgroup" && len(f) >= 6:
